@@ -609,10 +609,80 @@ def _p_len(ip, args, kwargs, st, line, node):
     return [('val', mk_sym(st, name, 0, INF, ('len', [v])), st)]
 
 
+def bytes_len(v, st):
+    """Interval [lo, hi] of the length of a bytes value."""
+    if isinstance(v, Const) and isinstance(v.value, (bytes, str)):
+        return (len(v.value), len(v.value))
+    if isinstance(v, SliceV):
+        bl, bh = bytes_len(v.base, st)
+
+        def bound(x, default):
+            if x is None or (isinstance(x, Const) and x.value is None):
+                return (default, default)
+            iv = ival(x, st)
+            return iv if iv is not None else (0, INF)
+        llo, lhi = bound(v.lo, 0)
+        hlo, hhi = bound(v.hi, INF)
+        if llo < 0 or hlo < 0:
+            return (0, bh)
+        # length = max(0, min(hi, len(base)) - lo)
+        lo = max(0, min(hlo, bl) - lhi)
+        hi = max(0, min(hhi, bh) - llo)
+        return (lo, hi)
+    if isinstance(v, BytesV):
+        lo = hi = 0
+        for p in v.parts:
+            if p[0] == 'lit':
+                lo += len(p[1])
+                hi += len(p[1])
+            elif p[0] == 'pack':
+                n = fmt_size(p[1])
+                if n is None:
+                    hi = INF
+                else:
+                    lo += n
+                    hi += n
+            elif p[0] == 'opq':
+                a, b = bytes_len(p[1], st)
+                lo += a
+                hi += b
+            else:
+                hi = INF
+        return (lo, hi)
+    if isinstance(v, V):
+        name = 'len(%s)' % v.desc()
+        if name in st.cons:
+            lo, hi, _ = st.cons[name]
+            return (max(0, lo), hi)
+    return (0, INF)
+
+
 def _p_struct_unpack(ip, args, kwargs, st, line, node):
     if len(args) >= 2 and isinstance(args[0], Const) and isinstance(args[0].value, str):
         fl = parse_fmt(args[0].value)
+        need = fmt_size(args[0].value)
+        if fl is not None and need is not None and getattr(ip, 'unpack_may_raise', False):
+            lo, hi = bytes_len(args[1], st)
+            if not (lo <= need <= hi):
+                st.flags.add('short-unpack@%s' % getattr(st.cur_func(), 'qualname', '?'))
+                return [('raise', Opaque('struct.error(unpack %s needs %d octets)' % (args[0].value, need)), st)]
+            if (lo, hi) != (need, need):
+                s2 = st.fork()
+                ip._count()
+                fq = getattr(st.cur_func(), 'qualname', None)
+                s2.flags.add('short-unpack@%s' % (fq or '?'))
+                s2.path.append(('len(%s) == %d' % (args[1].desc(), need), False, line, fq))
+                st.path.append(('len(%s) == %d' % (args[1].desc(), need), True, line, fq))
+                return _unpack_ok(ip, args, st, line, fl) + \
+                    [('raise', Opaque('struct.error(unpack %s needs %d octets)' % (args[0].value, need)), s2)]
         if fl is not None:
+            return _unpack_ok(ip, args, st, line, fl)
+    return [('val', Opaque('struct.unpack(%s)' % ', '.join(a.desc() for a in args)), st)]
+
+
+def _unpack_ok(ip, args, st, line, fl):
+    if True:
+        if True:
             st.counter += 1
             base = 'unpack%d@%s' % (st.counter, line)
             items = []
@@ -629,7 +699,6 @@ def _p_struct_unpack(ip, args, kwargs, st, line, node):
                 else:
                     items.append(Opaque(nm, 'bytes'))
             return [('val', TupleV(items), st)]
-    return [('val', Opaque('struct.unpack(%s)' % ', '.join(a.desc() for a in args)), st)]
 
 
 def _p_struct_pack(ip, args, kwargs, st, line, node):
